@@ -187,7 +187,16 @@ func history(r *vh.Run, hidx int) {
 		root = r.TempDir("c11")
 		defer vh.RemoveAll(root)
 	}
-	srv := vh.New(vh.Conf(kind, root, vh.Neutral))
+	// a quarter of the histories (directory store) run with a grace period of 25 ms and clients that all pause for
+	// about that long in the middle: the cached repository object expires (which runs its collection) and is loaded
+	// again from index.json while requests arrive
+	idleExpiry := hidx%4 == 3
+	pol := vh.Neutral
+	if idleExpiry {
+		pol.Grace = 25 * time.Millisecond
+		r.Count("histories_with_repository_expiry", 1)
+	}
+	srv := vh.New(vh.Conf(kind, root, pol))
 	defer srv.Close()
 	repo := "r"
 	cfg := &vh.Blob{Name: "cfg", B: []byte(fmt.Sprintf(`{"h":%d}`, hidx))}
@@ -217,7 +226,11 @@ func history(r *vh.Run, hidx int) {
 	// not: every observation of either side is a read of that one bit
 	var apool []*vh.Man
 	for p := 0; p < 2+rng.Intn(2); p++ {
-		apool = append(apool, mk(fmt.Sprintf("SA%d", p), subjects[rng.Intn(len(subjects))]))
+		sa := mk(fmt.Sprintf("SA%d", p), subjects[rng.Intn(len(subjects))])
+		if p == 1 {
+			sa = vh.MkIndex("SAX", "sha256", vh.MTIndex, nil, subjects[rng.Intn(len(subjects))], "application/x.a", map[string]string{"n": "SAX", "h": fmt.Sprint(hidx)})
+		}
+		apool = append(apool, sa)
 	}
 	byD := map[string]*vh.Man{}
 	var bmu sync.Mutex
@@ -293,6 +306,9 @@ func history(r *vh.Run, hidx int) {
 				}
 			}
 			for n := 0; n < nops; n++ {
+				if idleExpiry && (n == nops/3 || n == 2*nops/3) {
+					time.Sleep(time.Duration(27+crng.Intn(8)) * time.Millisecond)
+				}
 				switch k := crng.Intn(15); {
 				case k == 12: // push a shared artifact (again)
 					a := apool[crng.Intn(len(apool))]
@@ -371,6 +387,11 @@ func history(r *vh.Run, hidx int) {
 				case k < 8: // artifact push
 					sj := subjects[crng.Intn(len(subjects))]
 					a := mk(fmt.Sprintf("a-c%dn%d", c, n), sj)
+					if crng.Intn(3) == 0 {
+						// the rarer form of a referrer: an image index that carries the subject
+						a = vh.MkIndex(fmt.Sprintf("ax-c%dn%d", c, n), "sha256", vh.MTIndex, nil, sj, "application/x.a", map[string]string{"n": fmt.Sprintf("ax-c%dn%d", c, n), "h": fmt.Sprint(hidx)})
+						r.Count("index_artifact_pushes", 1)
+					}
 					t0 := rc.now()
 					rs := vh.Do(srv, vh.Req{Method: "PUT", URL: "/v2/" + repo + "/manifests/" + a.D, H: map[string]string{"Content-Type": a.MT}, Body: a.Raw})
 					t1 := rc.now()
@@ -683,5 +704,5 @@ func main() {
 	r.Require("histories", int64(n))
 	r.Require("operations", int64(n*40))
 	r.RequireDistinct("overlap_shapes", n/2)
-	r.Finish("short concurrent histories: 4-8 clients x 6-10 operations on one repository (tag pushes of shared and fresh images over 2-3 tags, tag deletes, deletes by digest, artifact pushes to 1-3 shared subjects incl. a missing one, artifact deletes, 2-3 shared artifacts that any client pushes again, deletes and probes, reads of tags / manifests / referrers), a background collection loop with a retain-everything policy and a client that keeps creating index entries without content for it to prune, final reads of every tag and shared artifact recorded as the last operations, both stores, seeded jitter before lock acquisitions in the vsync build; every history checked with porcupine (nondeterministic model, partitioned by object) and at quiescence; a case is one history, distinct = distinct interval orders (call/return shapes) with at least two overlapping requests", "histories", "overlap_shapes")
+	r.Finish("short concurrent histories: 4-8 clients x 6-10 operations on one repository (tag pushes of shared and fresh images over 2-3 tags, tag deletes, deletes by digest, artifact pushes to 1-3 shared subjects incl. a missing one, artifact deletes, 2-3 shared artifacts (one of them an index with a subject) that any client pushes again, deletes and probes, a third of the private artifacts are indexes with a subject, a quarter of the histories run with a 25 ms grace period and synchronous pauses so that the cached repository object expires and is reloaded under traffic, reads of tags / manifests / referrers), a background collection loop with a retain-everything policy and a client that keeps creating index entries without content for it to prune, final reads of every tag and shared artifact recorded as the last operations, both stores, seeded jitter before lock acquisitions in the vsync build; every history checked with porcupine (nondeterministic model, partitioned by object) and at quiescence; a case is one history, distinct = distinct interval orders (call/return shapes) with at least two overlapping requests", "histories", "overlap_shapes")
 }
